@@ -252,6 +252,8 @@ func featureSig(d *spec.Design, m *spec.Method) string {
 
 func runExchange(t *verifsim.Tape, cfg engine.Config, prop string) *engine.Outcome {
 	o := &engine.Outcome{Features: map[string]int{}}
+	verifsim.SetIdleTape(t)
+	defer verifsim.SetIdleTape(nil)
 	h := sha256.New()
 	designs := gen.Designs()
 	if len(designs) == 0 {
